@@ -63,6 +63,26 @@ func BuildEnvelope(
 		return nil, ErrInvalidThreshold
 	}
 
+	// Count the shares that are placed in a grant which at least one keypair
+	// can decrypt: the recipients must be able to reach threshold+1 shares.
+	var placedShares, reachableShares uint32
+	for _, gc := range grants {
+		sc := gc.GetShareCount()
+		if sc == 0 {
+			sc = 1
+		}
+		if rem := totalShares - placedShares; sc > rem {
+			sc = rem
+		}
+		placedShares += sc
+		if len(gc.GetKeypairIndexes()) != 0 {
+			reachableShares += sc
+		}
+	}
+	if uint64(reachableShares) < uint64(threshold)+1 {
+		return nil, ErrInvalidThreshold
+	}
+
 	// Generate random Ristretto255 scalar as the master secret.
 	g := group.Ristretto255
 	secret := g.RandomNonZeroScalar(rnd)
